@@ -181,10 +181,15 @@ func vH_C08_revert() {
 			// later FlushRevert must not be fooled by it
 			vl = 12
 		}
-		key, val := vBytes("k", 1), vBytes("v", vl)
-		vAssert("set-ok", c.Set(key, val) == nil)
-		it, _ := c.GetItem(key, false)
-		m.set(key, val, it.Priority)
+		if i > 0 && vChoose("roots-only-flush", 0, vParam("rootsonly")) == 1 {
+			// nothing dirty: this flush appends a roots record and nothing else
+			vTrace("roots-only")
+		} else {
+			key, val := vBytes("k", 1), vBytes("v", vl)
+			vAssert("set-ok", c.Set(key, val) == nil)
+			it, _ := c.GetItem(key, false)
+			m.set(key, val, it.Priority)
+		}
 		if vChoose("second-op", 0, 1-vParam("lean")) == 1 {
 			k2 := vBytes("k2", 1)
 			was, err := c.Delete(k2)
@@ -268,6 +273,51 @@ func vH_C08_revert() {
 			vCheckColl("continued", s4.GetCollection("a"), cur)
 		}
 		vCover("continued")
+	}
+	vCover("done")
+}
+
+// C16 over short histories: enumerations interleaved with mutations (an
+// enumeration must reflect the collection as it is now, not as it was at an
+// earlier enumeration).
+func vH_C16_hist() {
+	s, _ := vNewStore(false)
+	c := s.SetCollection("a", nil)
+	m := &vModel{cmp: vCmpDefault}
+	steps := vParam("k")
+	for st := 0; st < steps; st++ {
+		switch vChoose("op", 0, 2) {
+		case 0:
+			vTrace("Set")
+			k, v := vBytes("k", 1), vBytes("v", 1)
+			p := vInt32("p")
+			vAssume(p >= 0)
+			vAssert("set-ok", c.SetItem(&Item{Key: k, Val: v, Priority: p}) == nil)
+			m.set(k, v, p)
+		case 1:
+			vTrace("Delete")
+			k := vBytes("k", 1)
+			was, err := c.Delete(k)
+			vAssert("delete-ok", vAnd(err == nil, was == m.del(k)))
+		case 2:
+			var seen [][]byte
+			vis := func(i *Item, d uint64) bool { seen = append(seen, i.Key); return true }
+			switch vChoose("enum", 0, 2) {
+			case 0:
+				vTrace("Len")
+				l, err := c.Len()
+				vAssert("hist-len", vAnd(err == nil, l == int64(len(m.ents))))
+				continue
+			case 1:
+				vTrace("VisitItemsAscendBlockEx")
+				vAssert("hist-block-noerr", c.VisitItemsAscendBlockEx(false, nil, vis) == nil)
+			case 2:
+				vTrace("VisitItemsRandom")
+				vAssert("hist-random-noerr", c.VisitItemsRandom(vis) == nil)
+			}
+			vExactlyOnce("hist", seen, m)
+			vCover("enumerated")
+		}
 	}
 	vCover("done")
 }
